@@ -117,28 +117,35 @@ structure TxFrames where
   endOffset : Nat
   deriving Repr
 
+abbrev TxScan := List (Nat × Nat) × Nat × Nat × Option (Option TxFrames)
+
+/-- one frame of the scan of `buildTxFrameOffsets`: a frame whose salts or running checksum do
+    not match ends the scan without a transaction; a commit frame ends it with one -/
+def txFrameStep (w : ByteArray) (pageSize walOffset : Nat) (bo : Option Bool) (salt1 salt2 : Nat)
+    (st : TxScan) (i : Nat) : Except String TxScan := do
+  let fsz := 24 + pageSize
+  let (m, c1, c2, done) := st
+  if done.isSome then pure st else
+  let off := walOffset + i * fsz
+  if be32 w (off + 8) ≠ salt1 ∨ be32 w (off + 12) ≠ salt2 then pure (m, c1, c2, some none) else
+  match bo with
+  | none => throw "panic runtime error: invalid memory address or nil pointer dereference (wal byte order)"
+  | some bigE =>
+    let (d1, d2) ← walChecksum bigE c1 c2 (w.extract off (off + 8))
+    let (d1, d2) ← walChecksum bigE d1 d2 (w.extract (off + 24) (off + fsz))
+    if d1 ≠ be32 w (off + 16) ∨ d2 ≠ be32 w (off + 20) then pure (m, c1, c2, some none) else
+    let m := mapSet m (be32 w off) off
+    let cm := be32 w (off + 4)
+    if cm ≠ 0 then pure (m, d1, d2, some (some { offsets := m, commit := cm, chk1 := d1, chk2 := d2, endOffset := off + fsz }))
+    else pure (m, d1, d2, none)
+
 /-- `buildTxFrameOffsets`: scan from `walOffset` for one complete transaction.
     `none` = errNoTransaction. `bo = none` is Go's nil byte order (nil dereference). -/
 def buildTxFrames (w : ByteArray) (pageSize walOffset : Nat) (bo : Option Bool) (salt1 salt2 chk1 chk2 : Nat) :
     Except String (Option TxFrames) := do
   let fsz := 24 + pageSize
   let nmax := if w.size ≥ walOffset + fsz then (w.size - walOffset) / fsz else 0
-  let r ← (List.range nmax).foldlM (fun (st : (List (Nat × Nat) × Nat × Nat × Option (Option TxFrames))) i => do
-    let (m, c1, c2, done) := st
-    if done.isSome then pure st else
-    let off := walOffset + i * fsz
-    if be32 w (off + 8) ≠ salt1 ∨ be32 w (off + 12) ≠ salt2 then pure (m, c1, c2, some none) else
-    match bo with
-    | none => throw "panic runtime error: invalid memory address or nil pointer dereference (wal byte order)"
-    | some bigE =>
-      let (d1, d2) ← walChecksum bigE c1 c2 (w.extract off (off + 8))
-      let (d1, d2) ← walChecksum bigE d1 d2 (w.extract (off + 24) (off + fsz))
-      if d1 ≠ be32 w (off + 16) ∨ d2 ≠ be32 w (off + 20) then pure (m, c1, c2, some none) else
-      let m := mapSet m (be32 w off) off
-      let cm := be32 w (off + 4)
-      if cm ≠ 0 then pure (m, d1, d2, some (some { offsets := m, commit := cm, chk1 := d1, chk2 := d2, endOffset := off + fsz }))
-      else pure (m, d1, d2, none))
-    ([], chk1, chk2, none)
+  let r ← (List.range nmax).foldlM (txFrameStep w pageSize walOffset bo salt1 salt2) ([], chk1, chk2, none)
   match r.2.2.2 with
   | some res => return res
   | none => return none    -- ran out of complete frames: short read → errNoTransaction
